@@ -1806,6 +1806,10 @@ class RecordTensor(ShapedTensor):
         # strongly reference data and get from internal properties
         data, ptr, recordsz = self.__data, self.__pointer, self.__recordsz
 
+        # widen tensor offsets so the shifts below cannot overflow a narrow dtype
+        if isinstance(offset, torch.Tensor):
+            offset = offset.long()
+
         # shift offset backward if using noninitial offset
         if not forward:
             offset = offset + (length - 1)
@@ -1914,6 +1918,10 @@ class RecordTensor(ShapedTensor):
         # strongly reference data and get from internal properties
         data, ptr, recordsz = self.__data, self.__pointer, self.__recordsz
         length = obs.shape[-1]
+
+        # widen tensor offsets so the shifts below cannot overflow a narrow dtype
+        if isinstance(offset, torch.Tensor):
+            offset = offset.long()
 
         # shift offset backward if using noninitial offset
         if not forward:
